@@ -254,3 +254,147 @@ Proof.
 Qed.
 Print Assumptions c_tweak_history_then_encrypt128_spec.
 Print Assumptions c_tweak_history_then_encrypt64_spec.
+
+Theorem c_tweak_history_then_decrypt128_spec :
+  forall (zk : nat) code fuel pl' sh' c t,                               (* skinny128_ecb_decrypt at the round count of zk+1 *)
+  In zk [1; 2] ->
+  flat [ksf] fuel [0; 0; 0]%N [(ksf, N.of_nat (skinny128_rounds (S zk)))] code = Some (pl', sh', c, t) ->
+  check_block_w callP sizes128 2 8 c (dec_offs 8 8 (skinny128_rounds (S zk)))
+    (dec_stepsW poly (k128_subcells_inv poly pxor pand pzero pone) (k128_dec_linear poly pxor pzero pone) (skinny128_rounds (S zk)))
+    (dec_stepsW bool (k128_subcells_inv bool xorb andb false true) (k128_dec_linear bool xorb false true) (skinny128_rounds (S zk))) = true ->
+  forall (key hdr prevtw out blk st : list byte) (sched : list (half byte)) (rest : list (list bool)) (mrest : mem bool) (qs : list tweak_req),
+  length key = 16 * zk -> length hdr = 8 -> length sched = 56 -> length prevtw = 16 ->
+  length out = 16 -> length blk = 16 -> length st = 16 ->
+  Forall (fun q => tweak_valid 16 q = true) qs ->
+  (* the tweakable object after set_tweaked_key and the history qs of set_tweak calls *)
+  let obj1 := nth 0 (w_set_tweaked_key128 bool xorb false true (length key)
+                       ((bitsB hdr ++ concat (map hbT8 sched) ++ bitsB prevtw ++ rest) :: bitsB key :: mrest)) [] in
+  let obj2 := fold_left (fun ks q => c_set_tweak128 (skinny128_rounds (S zk)) q ks) qs obj1 in
+  let ksobj := firstn 456 obj2 in                                           (* &tk.ks *)
+  exists st', interp [ksf] callB fuel [0; 0; 0]%N (([bitsB out; bitsB blk; ksobj; bitsB st] : mem bool), []) code = Some (pl', st', t)
+    /\ nth 0 (fst st') [] = bitsB (skinny128_tweaked_dec zk key (latest_tweak 16 (zeros 16) qs) blk)
+    /\ nth 1 (fst st') [] = bitsB blk /\ nth 2 (fst st') [] = ksobj.
+Proof.
+  intros zk code fuel pl' sh' c t Hz Hflat Hcheck key hdr prevtw out blk st sched rest mrest qs Hk Hh Hs Hp Ho Hb Hst Hqs.
+  cbv zeta. unfold byte in *.
+  assert (Hk' : 16 <= length key <= 32) by (destruct Hz as [<-|[<-|[]]]; lia).
+  set (t0 := {| tk_ks := {| ks_rounds := 0%N; ks_sched := sched |}; tk_tweak := prevtw |} : tks128).
+  destruct (w_set_tweaked_key128_model key prevtw hdr sched 0%N rest mrest Hk' Hh Hs Hp) as [_ HW]. cbv zeta in HW.
+  unfold byte in *. rewrite HW. cbn [nth]. clear HW. rewrite Hk.
+  fold t0.
+  set (t1 := snd (m128_set_tweaked_key t0 (Some key) (N.of_nat (16 * zk)))).
+  set (R := skinny128_rounds (S zk)) in *.
+  assert (HR : 0 < R /\ R <= 56) by (unfold R; destruct Hz as [<-|[<-|[]]]; cbn; lia).
+  (* facts about t1 from the model-level theorem with the empty history *)
+  destruct (c04_tweak_history128 zk t0 key [] Hz Hk Hs) as (_ & Htw1 & Hr1 & _). cbn [fold_left] in Htw1, Hr1. fold t1 in Htw1, Hr1.
+  assert (Hi1 : invT R t1).
+  { unfold invT. repeat split.
+    - unfold t1, m128_set_tweaked_key, set_tweaked_key.
+      rewrite (size_ok_true 16 (2 * 16) (16 * zk)) by (destruct Hz as [<-|[<-|[]]]; lia).
+      cbn [snd tk_ks]. unfold set_key_inner.
+      destruct (Nat.eqb _ 16); cbn [ks_sched mk_ks]; unfold set_tk1, set_tk2, set_tk3; rewrite !sched_loop_len; exact Hs.
+    - replace (tk_tweak _ t1) with (latest_tweak 16 (zeros 16) []) by (symmetry; exact Htw1). reflexivity.
+    - replace (ks_rounds _ (tk_ks _ t1)) with (N.of_nat R) by (symmetry; exact Hr1). apply Nat2N.id. }
+  assert (E1 : (rbytes (N.to_nat (ks_rounds byte (tk_ks byte t1))) ++ skipn 4 (bitsB hdr))
+                 ++ concat (map hbT8 (ks_sched byte (tk_ks byte t1))) ++ bitsB (tk_tweak byte t1) ++ rest
+               = imgT t1 (skipn 4 hdr) rest).
+  { unfold imgT. rewrite skipn_map. reflexivity. }
+  unfold byte in *. rewrite E1.
+  assert (Lp : length (skipn 4 hdr) = 4) by (rewrite skipn_length; unfold byte in *; lia).
+  destruct (c_set_tweak128_fold R (skipn 4 hdr) rest qs t1 Hqs Lp (proj2 HR) Hi1) as [E2 Hi2]. rewrite E2.
+  set (t2 := fold_left (fun t q => snd (m128_set_tweak t (fst q) (snd q))) qs t1) in *.
+  destruct Hi2 as (Hs2 & Ht2 & Hr2).
+  destruct (c04_tweak_history128 zk t0 key qs Hz Hk Hs) as (_ & _ & _ & Hspec & _). fold t1 t2 in Hspec.
+  (* &tk.ks = the first 456 bytes *)
+  set (hdr' := map (c8_of_bits bool false) (rbytes R) ++ skipn 4 hdr).
+  assert (Ehdr : bitsB hdr' = rbytes R ++ bitsB (skipn 4 hdr)) by (unfold hdr'; rewrite map_app; f_equal).
+  assert (Lhdr : length hdr' = 8) by (unfold hdr'; rewrite app_length, map_length, rbytes_len; unfold byte in *; lia).
+  assert (F : firstn 456 (imgT t2 (skipn 4 hdr) rest) = ks_image128 (bitsB hdr') (ks_sched byte (tk_ks byte t2))).
+  { unfold imgT, ks_image128, ks_image. rewrite Hr2, <- Ehdr.
+    assert (L : length (bitsB hdr' ++ concat (map hbT8 (ks_sched byte (tk_ks byte t2)))) = 456).
+    { rewrite app_length, map_length, sched_image_len128. unfold byte in *. lia. }
+    rewrite app_assoc, <- L, firstn_app, Nat.sub_diag, firstn_O, app_nil_r. apply firstn_all. }
+  unfold byte in *. rewrite F.
+  destruct (dec128_final code fuel R pl' sh' c t (proj1 HR) (proj2 HR) Hflat Hcheck out blk st hdr' (ks_sched byte (tk_ks byte t2))
+              Ho Hb Hst Lhdr Hs2) as [st' [Hint [Hout [H1 H2]]]].
+  { unfold ks_image128, ks_image. rewrite Ehdr. apply field_val_rounds.
+    apply N.le_lt_trans with (m := 56%N); [lia | vm_compute; reflexivity]. }
+  exists st'. repeat split; try assumption.
+  rewrite Hout. f_equal.
+  replace {| ks_rounds := N.of_nat R; ks_sched := ks_sched byte (tk_ks byte t2) |} with (tk_ks byte t2).
+  - apply (proj2 (Hspec blk Hb)).
+  - rewrite <- Hr2, N2Nat.id. symmetry. apply ks_eta.
+Qed.
+Print Assumptions c_tweak_history_then_decrypt128_spec.
+
+Theorem c_tweak_history_then_decrypt64_spec :
+  forall (zk : nat) code fuel pl' sh' c t,                               (* skinny64_ecb_decrypt at the round count of zk+1 *)
+  In zk [1; 2] ->
+  flat [ksf] fuel [0; 0; 0]%N [(ksf, N.of_nat (skinny64_rounds (S zk)))] code = Some (pl', sh', c, t) ->
+  check_block_w callP sizes64 2 4 c (dec_offs 4 4 (skinny64_rounds (S zk)))
+    (dec_stepsW poly (k64_subcells_inv poly pxor pand pzero pone) (k64_dec_linear poly pxor pzero pone) (skinny64_rounds (S zk)))
+    (dec_stepsW bool (k64_subcells_inv bool xorb andb false true) (k64_dec_linear bool xorb false true) (skinny64_rounds (S zk))) = true ->
+  forall (key hdr prevtw out blk st : list byte) (sched : list (half nib)) (rest : list (list bool)) (mrest : mem bool) (qs : list tweak_req),
+  length key = 8 * zk -> length hdr = 4 -> length sched = 40 -> length prevtw = 8 ->
+  length out = 8 -> length blk = 8 -> length st = 8 ->
+  Forall (fun q => tweak_valid 8 q = true) qs ->
+  (* the tweakable object after set_tweaked_key and the history qs of set_tweak calls *)
+  let obj1 := nth 0 (w_set_tweaked_key64 bool xorb false true (length key)
+                       ((bitsB hdr ++ concat (map hbT4 sched) ++ bitsB prevtw ++ rest) :: bitsB key :: mrest)) [] in
+  let obj2 := fold_left (fun ks q => c_set_tweak64 (skinny64_rounds (S zk)) q ks) qs obj1 in
+  let ksobj := firstn 164 obj2 in                                           (* &tk.ks *)
+  exists st', interp [ksf] callB fuel [0; 0; 0]%N (([bitsB out; bitsB blk; ksobj; bitsB st] : mem bool), []) code = Some (pl', st', t)
+    /\ nth 0 (fst st') [] = bitsB (skinny64_tweaked_dec zk key (latest_tweak 8 (zeros 8) qs) blk)
+    /\ nth 1 (fst st') [] = bitsB blk /\ nth 2 (fst st') [] = ksobj.
+Proof.
+  intros zk code fuel pl' sh' c t Hz Hflat Hcheck key hdr prevtw out blk st sched rest mrest qs Hk Hh Hs Hp Ho Hb Hst Hqs.
+  cbv zeta. unfold byte in *.
+  assert (Hk' : 8 <= length key <= 16) by (destruct Hz as [<-|[<-|[]]]; lia).
+  set (t0 := {| tk_ks := {| ks_rounds := 0%N; ks_sched := sched |}; tk_tweak := prevtw |} : tks64).
+  destruct (w_set_tweaked_key64_model key prevtw hdr sched 0%N rest mrest Hk' Hh Hs Hp) as [_ HW]. cbv zeta in HW.
+  unfold byte in *. rewrite HW. cbn [nth]. clear HW. rewrite Hk.
+  fold t0.
+  set (t1 := snd (m64_set_tweaked_key t0 (Some key) (N.of_nat (8 * zk)))).
+  set (R := skinny64_rounds (S zk)) in *.
+  assert (HR : 0 < R /\ R <= 40) by (unfold R; destruct Hz as [<-|[<-|[]]]; cbn; lia).
+  (* facts about t1 from the model-level theorem with the empty history *)
+  destruct (c04_tweak_history64 zk t0 key [] Hz Hk Hs) as (_ & Htw1 & Hr1 & _). cbn [fold_left] in Htw1, Hr1. fold t1 in Htw1, Hr1.
+  assert (Hi1 : invT64 R t1).
+  { unfold invT64. repeat split.
+    - unfold t1, m64_set_tweaked_key, set_tweaked_key.
+      rewrite (size_ok_true 8 (2 * 8) (8 * zk)) by (destruct Hz as [<-|[<-|[]]]; lia).
+      cbn [snd tk_ks]. unfold set_key_inner.
+      destruct (Nat.eqb _ 8); cbn [ks_sched mk_ks]; unfold set_tk1, set_tk2, set_tk3; rewrite !sched_loop_len; exact Hs.
+    - replace (tk_tweak _ t1) with (latest_tweak 8 (zeros 8) []) by (symmetry; exact Htw1). reflexivity.
+    - replace (ks_rounds _ (tk_ks _ t1)) with (N.of_nat R) by (symmetry; exact Hr1). apply Nat2N.id. }
+  assert (E1 : (rbytes (N.to_nat (ks_rounds nib (tk_ks nib t1))) ++ skipn 4 (bitsB hdr))
+                 ++ concat (map hbT4 (ks_sched nib (tk_ks nib t1))) ++ bitsB (tk_tweak nib t1) ++ rest
+               = imgT64 t1 (skipn 4 hdr) rest).
+  { unfold imgT64. rewrite skipn_map. reflexivity. }
+  unfold byte in *. rewrite E1.
+  assert (Lp : length (skipn 4 hdr) = 0) by (rewrite skipn_length; unfold byte in *; lia).
+  destruct (c_set_tweak64_fold R (skipn 4 hdr) rest qs t1 Hqs Lp (proj2 HR) Hi1) as [E2 Hi2]. rewrite E2.
+  set (t2 := fold_left (fun t q => snd (m64_set_tweak t (fst q) (snd q))) qs t1) in *.
+  destruct Hi2 as (Hs2 & Ht2 & Hr2).
+  destruct (c04_tweak_history64 zk t0 key qs Hz Hk Hs) as (_ & _ & _ & Hspec & _). fold t1 t2 in Hspec.
+  (* &tk.ks = the first 456 bytes *)
+  set (hdr' := map (c8_of_bits bool false) (rbytes R) ++ skipn 4 hdr).
+  assert (Ehdr : bitsB hdr' = rbytes R ++ bitsB (skipn 4 hdr)) by (unfold hdr'; rewrite map_app; f_equal).
+  assert (Lhdr : length hdr' = 4) by (unfold hdr'; rewrite app_length, map_length, rbytes_len; unfold byte in *; lia).
+  assert (F : firstn 164 (imgT64 t2 (skipn 4 hdr) rest) = ks_image64 (bitsB hdr') (ks_sched nib (tk_ks nib t2))).
+  { unfold imgT64, ks_image64, ks_image. rewrite Hr2, <- Ehdr.
+    assert (L : length (bitsB hdr' ++ concat (map hbT4 (ks_sched nib (tk_ks nib t2)))) = 164).
+    { rewrite app_length, map_length, sched_image_len64. unfold byte in *. lia. }
+    rewrite app_assoc, <- L, firstn_app, Nat.sub_diag, firstn_O, app_nil_r. apply firstn_all. }
+  unfold byte in *. rewrite F.
+  destruct (dec64_final code fuel R pl' sh' c t (proj1 HR) (proj2 HR) Hflat Hcheck out blk st hdr' (ks_sched nib (tk_ks nib t2))
+              Ho Hb Hst Lhdr Hs2) as [st' [Hint [Hout [H1 H2]]]].
+  { unfold ks_image64, ks_image. rewrite Ehdr. apply field_val_rounds.
+    apply N.le_lt_trans with (m := 40%N); [lia | vm_compute; reflexivity]. }
+  exists st'. repeat split; try assumption.
+  rewrite Hout. f_equal.
+  replace {| ks_rounds := N.of_nat R; ks_sched := ks_sched nib (tk_ks nib t2) |} with (tk_ks nib t2).
+  - apply (proj2 (Hspec blk Hb)).
+  - rewrite <- Hr2, N2Nat.id. symmetry. apply ks_eta64.
+Qed.
+Print Assumptions c_tweak_history_then_decrypt64_spec.
